@@ -56,10 +56,59 @@ def generate(tp: Tape, tier: str):
         case = c11.generate(tp, tier)
         case["kind"] = "store"
         return case
+    if tp.coin(1, 3):
+        return generate_rechunk_case(tp, tier)
     profile = tp.weighted([("rechunk", 6), ("multi", 2), ("reduce", 2), ("general", 2)])
     case = c01.generate(tp, tier, profile=profile, max_extent=tp.choice([12, 20]) if tier == "quick" else tp.choice([12, 24, 40]))
     case["allowed_mem"] = tp.choice([200_000_000, 2_000_000, 100_000, 20_000])
     case["sim"]["mode"] = tp.choice(["two_phase", "spread", "two_phase", "atomic"])
+    return case
+
+
+def generate_rechunk_case(tp: Tape, tier: str):
+    """A single (possibly multi-stage) rechunk of a larger 2-d/3-d array with a memory budget
+    between one chunk and the whole array, so that the planner has to produce several stages."""
+    ndim = tp.choice([2, 2, 3])
+    big = 240 if tier == "quick" else 600
+    shape = [tp.randint(8, big if d == ndim - 1 else 60) for d in range(ndim)]
+    while math.prod(shape) > (40_000 if tier == "quick" else 150_000):
+        i = shape.index(max(shape))
+        shape[i] = max(4, shape[i] // 2)
+
+    def skinny(axis_long):
+        cs = []
+        for d, n in enumerate(shape):
+            if d == axis_long:
+                cs.append(tp.randint(max(1, n // 3), n))
+            else:
+                cs.append(tp.randint(1, max(1, n // 6)))
+        return cs
+
+    a_long = tp.below(ndim)
+    b_long = (a_long + 1 + tp.below(ndim - 1)) % ndim
+    src_chunks = skinny(a_long) if tp.coin(3, 4) else G.gen_chunks(tp, shape)
+    tgt_chunks = skinny(b_long) if tp.coin(3, 4) else G.gen_chunks(tp, shape)
+    dtype = tp.choice(["float64", "int64", "int32", "int8"])
+    itemsize = np.dtype(dtype).itemsize
+    nbytes = math.prod(shape) * itemsize
+    src_mem = math.prod(src_chunks) * itemsize
+    tgt_mem = math.prod(tgt_chunks) * itemsize
+    # rechunker_max_mem = allowed_mem // ~5: choose allowed so that max_mem is a small multiple of the larger chunk
+    factor = tp.choice([1, 1, 2, 3, 6, 20])
+    allowed = max(src_mem, tgt_mem) * 6 * factor + 64
+    p = dict(chunks=tgt_chunks)
+    if tp.coin(1, 2):
+        p["allow_irregular"] = False
+    if tp.coin(1, 2):
+        p["min_mem"] = tp.choice([0, max(src_mem, tgt_mem) // 8 + 1, max(src_mem, tgt_mem) // 2 + 1, min(src_mem, tgt_mem)])
+    prog = dict(inputs=[dict(shape=shape, chunks=src_chunks, dtype=dtype, src=tp.choice(["asarray", "from_zarr"]),
+                             data_seed=tp.randint(0, 10**6), nan=False)],
+                steps=[dict(op="rechunk", args=[0], p=p)], outputs=[1])
+    case = dict(kind="prog", prog=prog, profile="rechunk_plan", avoided=True,
+                exec=H.exec_cfg_from_tape(tp, kinds=("threads", "processes", "single")),
+                sim=H.sim_cfg_from_tape(tp, modes=("two_phase", "spread", "atomic")),
+                opt=tp.choice([dict(kind="off"), dict(kind="default")]), allowed_mem=int(allowed), compressor=None,
+                py_seed=tp.randint(0, 10**6), sched_seed=tp.randint(0, 2**62))
     return case
 
 
@@ -84,7 +133,7 @@ def execute(case, sched=None):
                     got = zarr.open_array(store=ti.store, path=ti.path, mode="r")[...]
                 except Exception:  # noqa: BLE001
                     continue
-                d = G.compare(np.asarray(got), ti.expected, exact=True)
+                d = G.compare(np.asarray(got), ti.expected, exact=ti.exact, lowprec=ti.lowprec)
                 if d is not None:
                     violations.append(dict(cls="wrong_value_under_interleaving", msg=f"target {k} ({ti.desc}): {d}",
                                            shared_ancestry=out.get("shared_ancestry"), n_pairs=len(infos)))
@@ -105,7 +154,8 @@ def execute(case, sched=None):
     if accepted:
         vs, multi_chunk_arrays, nkeys = history_invariant(rr, infos, records)
         for v in vs:
-            v.setdefault("shared_ancestry", None)
+            v.setdefault("shared_ancestry", out.get("shared_ancestry") if case.get("kind") == "store" else None)
+            v.setdefault("n_pairs", len(infos))
         violations = vs + violations
         counters["stored_keys_checked"] = nkeys
         counters["array_writes_checked"] = len(records)
